@@ -111,3 +111,16 @@ level("C16",
       "destination derivation.",
       "forward taint with reaching definitions and control-dependence checks; table agreement; CFG dominance for stage order",
       "DESIGN.md §4 C16")
+
+level("C18",
+      "Static decision of: the path tokens, separators and type-argument indexes the generator writes are the ones the "
+      "post-init interpreter reads; the path writer has an arm of the right kind for every IR class that rapid type "
+      "analysis shows inference can produce (containers contribute tokens, Unknown/Null/literals are skipped, unions "
+      "and model references give up as documented); decorator entries use the field-name conversion; under the "
+      "Optional token None is returned before any container branch can iterate it; the converter runtime keeps no "
+      "shared state.",
+      "Decided: TOK-1, TOK-2, TOK-3, NULL-1, GLOB-1. NOT decided: that converted values equal parsing the original "
+      "strings; the per-field attrs converter form. Trusted: recognition of the `cls is X` dispatch chain and the "
+      "`token == 'X'` chain.",
+      "writer/reader table agreement, exhaustiveness by rapid type analysis, guard dominance for nullable values",
+      "DESIGN.md §4 C18")
